@@ -405,7 +405,8 @@ ACT = causes.Activity
 
 @harness('R9', targets=[f'{REG}.ActivityRegistry.iter_handlers', f'{REG}.ActivityRegistry.get_handlers',
                         f'{REG}.SmartOperatorRegistry.__init__'],
-         props=['C20', 'C12'],
+         props=['C20', 'C12', 'C11'],
+         prop_clauses={'C11': ['get_handlers_deduplicates']},
          clauses=['found_starts_false', 'regular_pass', 'found_tracks_regular_matches', 'fallback_only_if_no_regular',
                   'fallback_pass', 'frame', 'get_handlers_deduplicates', 'fallbacks_name_their_activity', 'piggybacking_logins'],
          canaries=['canary.yields_all', 'canary.fallback_pass_unreachable'],
@@ -1105,7 +1106,8 @@ def _falsy(x):
 @harness('R15', targets=[f'kopf.on.{k}' for k in RESOURCE_KINDS + tuple(ACTIVITY_KINDS) + ('subhandler', 'register')] +
                         ['kopf.on._verify_operations', 'kopf.on._verify_filters', 'kopf.on._warn_conflicting_values',
                          'kopf.on._warn_incompatible_parent_with_oldnew'],
-         props=['C05', 'C15', 'C11', 'C09', 'C02', 'C06', 'C20', 'C18', 'C17', 'C10', 'C14'],
+         props=['C05', 'C15', 'C11', 'C09', 'C02', 'C06', 'C20', 'C18', 'C17', 'C10', 'C14', 'C04'],
+         prop_clauses={'C04': ['criteria_passed_through']},
          clauses=['one_handler_in_its_registry', 'returns_the_function', 'kind_attributes', 'delete_requires_finalizer_unless_optional',
                   'spawning_requires_finalizer', 'update_handlers_need_change', 'criteria_passed_through', 'error_policy_passed_through',
                   'id_from_function_or_id_plus_field', 'index_id_is_its_name', 'selector', 'activity_kind', 'subhandler',
@@ -1603,7 +1605,8 @@ def spec_check(want, r, fn_says=None):
 
 
 @harness('R14', targets=[f'{REFS}.Selector.check', f'{REFS}.Selector.select', f'{REFS}.Selector.__post_init__', f'{REFS}.Selector.is_specific'],
-         props=['C15', 'C19', 'C18', 'C17', 'C09', 'C13'],
+         props=['C15', 'C19', 'C18', 'C17', 'C09', 'C13', 'C06', 'C14', 'C01'],
+         prop_clauses={'C06': ['check'], 'C14': ['notation', 'check'], 'C01': ['check']},
          clauses=['notation', 'check', 'callable_selector', 'select_filters', 'select_prefers_core_v1', 'rejects_ambiguous'],
          canaries=['canary.matches_everything', 'canary.matches_nothing'],
          assumes=['the resource has one short name and one category (both arbitrary strings); its group, version, plural, kind, singular '
